@@ -60,6 +60,29 @@ pub fn generate(tape: &[u8]) -> WeakProgram {
         // same-job deref: must be alive (KeepDuringJob)
         s.push_str(&format!("  print('same-job', refs.{name}.deref() === {name}, wm.has({name}) || !ws.has({name}));\n"));
     }
+    // ephemeron chains: every key except the first is reachable ONLY through the value of another
+    // WeakMap entry; entries are inserted in a tape-chosen order (the collector needs several
+    // rounds of its ephemeron fix-point to keep them all)
+    let chain_len = t.below(6);
+    if chain_len >= 2 {
+        s.push_str("  var chainMaps = [new WeakMap(), new WeakMap()];\n  var c0 = { name: 'c0' }; keep.push(c0); refs.chainHead = c0; refs.chainMaps = chainMaps;\n");
+        for i in 1..chain_len {
+            s.push_str(&format!("  var c{i} = {{ name: 'c{i}' }};\n"));
+        }
+        let mut order: Vec<usize> = (0..chain_len).collect();
+        for i in (1..order.len()).rev() {
+            let j = t.below(i + 1);
+            order.swap(i, j);
+        }
+        for i in order {
+            let m = t.below(2);
+            if i + 1 < chain_len {
+                s.push_str(&format!("  chainMaps[{m}].set(c{i}, c{});\n", i + 1));
+            } else {
+                s.push_str(&format!("  chainMaps[{m}].set(c{i}, 'payload');\n"));
+            }
+        }
+    }
     s.push_str("  for (var k in tokens) fr.unregister(tokens[k]);\n");
     // allocate garbage to give collections something to do
     s.push_str("  var junk = []; for (var j = 0; j < 40; j++) junk.push({ j: j, a: [j, j + 1], s: 'x' + j });\n  print('junk', junk.length);\n");
@@ -73,6 +96,9 @@ pub fn generate(tape: &[u8]) -> WeakProgram {
             if t.bool() {
                 s.push_str(&format!("  print('deref {name} ' + (refs.{name}.deref() === undefined ? 'dead' : 'alive'));\n"));
             }
+        }
+        if chain_len >= 2 {
+            s.push_str("  var cur = refs.chainHead, names = [];\n  for (var step = 0; step < 8 && typeof cur === 'object' && cur !== null; step++) { names.push(cur.name); cur = refs.chainMaps[0].has(cur) ? refs.chainMaps[0].get(cur) : refs.chainMaps[1].get(cur); }\n  print('chain', names.join('>'), show(cur));\n");
         }
         s.push_str(&format!("  print('job {j}', keep.length, junk.length);\n}});\n"));
     }
